@@ -82,12 +82,30 @@ def stepJson (V width : Nat) (carried : State) (o : StepOut) : Json :=
     ("cand_finite", natJ (o.cand.filter XR.isFin).length),
     ("cand_nan", boolJ (o.cand.any XR.isNan))]
 
-/-- the loop again, but keeping the carried state after every iteration (for the per-step comparison). -/
-def loopStates (fix : Bool) (V width len : Nat) : Nat → State → List FrameIn → List (State × StepOut)
+/-- the loop again, but keeping the carried state after every iteration (for the per-step comparison).
+Every frame carries the `width` argument of its call: the module always passes its own width, a caller of
+`ctc_prefix_search_advance` may pass a different one at every call. -/
+def loopStates (fix : Bool) (V len : Nat) : Nat → State → List (FrameIn × Nat) → List (State × StepOut)
   | _, _, [] => []
-  | t, st, f :: fs =>
+  | t, st, (f, width) :: fs =>
     let r := loopStep fix V width (decide (t < len)) st f
-    r :: loopStates fix V width len (t + 1) r.1 fs
+    r :: loopStates fix V len (t + 1) r.1 fs
+
+/-- per-call width of a frame (`"width"` in the frame object), else the case's width -/
+def frameWidth (dflt : Nat) (j : Json) : Nat :=
+  match fieldOpt j "width" with
+  | some w => match jsonToNat w with
+    | .ok n => n
+    | .error _ => dflt
+  | none => dflt
+
+/-- the finite map a given start state stands for (glue for runs that start from a state handed to
+`ctc_prefix_search_advance` by the caller): prefix ↦ (nb, b) of every slot whose total is finite -/
+def beamOfState (st : State) : PdtVerif.Ctc.Beam :=
+  ((List.range st.nb.length).filter (fun k => (getX st.nb k + getX st.b k).isFin)).filterMap (fun k =>
+    match getX st.nb k, getX st.b k with
+    | .fin a, .fin b => some ((st.y.getD k []).take (getN st.lens k), (a, b))
+    | _, _ => none)
 
 /-! ### specification side -/
 open PdtVerif.Ctc in
@@ -118,18 +136,19 @@ init?: state, ext_table?: per frame [[prefix,[row]]..], keeps?: per frame [prefi
 def c05Elem (fix : Bool) (V width : Nat) (wantSpec : Bool) (c : Json) : Except String Json := do
   let len ← getNat c "len"
   let frames ← getList parseFrame c "frames"
+  let widths ← getList (fun j => pure (frameWidth width j)) c "frames"
   let st0 ← match fieldOpt c "init" with
     | none => pure initState
     | some j => parseState j
-  let steps := loopStates fix V width len 0 st0 frames
+  let steps := loopStates fix V len 0 st0 (frames.zip widths)
   let final := match steps.getLast? with
     | some (s, _) => s
     | none => st0
-  let res := finish width final
+  let res := finish (widths.getLast?.getD width) final
   let modelJ := objJ [
     ("result", objJ [("prefixes", listJ prefJ res.prefixes), ("lens", listJ natJ res.lens),
                      ("probs", listJ xrToJson res.probs)]),
-    ("steps", Json.arr (steps.map (fun (s, o) => stepJson V width s o)).toArray)]
+    ("steps", Json.arr ((steps.zip widths).map (fun ((s, o), w) => stepJson V w s o)).toArray)]
   if !wantSpec then
     return objJ [("model", modelJ), ("spec", Json.null)]
   -- specification: only the first `len` frames belong to this element
@@ -156,16 +175,23 @@ def c05Elem (fix : Bool) (V width : Nat) (wantSpec : Bool) (c : Json) : Except S
   let keeps ← match fieldOpt c "keeps" with
     | none => pure ((steps.take len).map (fun (s, _) => validPrefixes s))
     | some j => jsonToList (jsonToList (jsonToList jsonToNat)) j
-  let rec go : List PdtVerif.Ctc.Frame → List (List (List Nat)) → PdtVerif.Ctc.Beam →
+  let rec go : List (PdtVerif.Ctc.Frame × Nat) → List (List (List Nat)) → PdtVerif.Ctc.Beam →
       List (Bool × Bool × Nat × Nat) → PdtVerif.Ctc.Beam × List (Bool × Bool × Nat × Nat)
-    | f :: fs, k :: ks, bm, acc =>
+    | (f, w) :: fs, k :: ks, bm, acc =>
       let cs := (PdtVerif.Ctc.cands V bm).eraseDups
-      let ok := PdtVerif.Ctc.isTopKB V f width bm k
+      let ok := PdtVerif.Ctc.isTopKB V f w bm k
       let pruned := cs.any (fun p => !k.contains p)
       go fs ks (PdtVerif.Ctc.beamStep V f k bm) (acc ++ [(ok, pruned, cs.length, (k.filter (fun p => cs.contains p)).eraseDups.length)])
     | _, _, bm, acc => (bm, acc)
-  let (beam, info) := go specFrames keeps PdtVerif.Ctc.beamInit []
-  let table := massTable V specFrames
+  -- a run that starts from a caller-given state is compared with the recursion started from the map that
+  -- state stands for; the alignment enumeration (true mass) only makes sense from the initial state
+  let fromInit := (fieldOpt c "init").isSome
+  let beam0 := if fromInit then beamOfState st0 else PdtVerif.Ctc.beamInit
+  let (beam, info) := go (specFrames.zip widths) keeps beam0 []
+  let wantMass := !fromInit && (match fieldOpt c "mass" with
+    | some (.bool b) => b
+    | _ => true)
+  let table := if wantMass then massTable V specFrames else []
   -- cross-check the glue against the definitions on the first entries
   let chk := (table.take 2).all (fun (p, m) => PdtVerif.Ctc.mass V specFrames p == m)
   if !chk then throw "internal: massTable disagrees with Ctc.mass"
@@ -178,7 +204,9 @@ def c05Elem (fix : Bool) (V width : Nat) (wantSpec : Bool) (c : Json) : Except S
     ("frames", listJ (fun (x : Bool × Bool × Nat × Nat) =>
         objJ [("topk_ok", boolJ x.1), ("pruned", boolJ x.2.1), ("ncands", natJ x.2.2.1),
               ("nkeep", natJ x.2.2.2)]) info),
-    ("mass", listJ (fun (e : List Nat × Rat) => objJ [("p", prefJ e.1), ("m", ratToJson e.2)]) table)]
+    ("mass", if wantMass then
+        listJ (fun (e : List Nat × Rat) => objJ [("p", prefJ e.1), ("m", ratToJson e.2)]) table
+      else Json.null)]
   return objJ [("model", modelJ), ("spec", specJ)]
 
 /-- case: {fix, V, width, spec?, elements: [element..]} → {"elements": [{model, spec}..]}. -/
